@@ -179,14 +179,19 @@ def norm_seq_ty(t):
     return t
 
 
-def check(run):
-    prog = run.program("lib")
+def wire_consts(prog):
     consts = {}
     for nm, path in (("MTU_BYTES", NET + "MTU_BYTES"), ("MAX_DATA_PER_SHRED", A + "shredder::MAX_DATA_PER_SHRED"), ("TOTAL_SHREDS", A + "shredder::TOTAL_SHREDS"),
                      ("MAX_SLICES_PER_BLOCK", A + "types::slice_index::MAX_SLICES_PER_BLOCK"), ("MAX_SIGNERS", A + "crypto::aggsig::MAX_SIGNERS"),
                      ("UNCOMPRESSED_SIG_SIZE", A + "crypto::aggsig::UNCOMPRESSED_SIG_SIZE"), ("MAX_TRANSACTION_SIZE", A + "MAX_TRANSACTION_SIZE"),
                      ("MAX_MERKLE_TREE_HEIGHT", A + "crypto::merkle::MAX_MERKLE_TREE_HEIGHT")):
         consts[nm] = prog.const_int(path)
+    return consts
+
+
+def check(run):
+    prog = run.program("lib")
+    consts = wire_consts(prog)
 
     # ------------------------------------------------------------------ O19.1
     o = run.ob("O19.1", "single exact decoding door with an MTU-capped preallocation limit",
